@@ -14,10 +14,11 @@ EXPLANATION = (
     "recorded pixels (clauses 'pixels-set-...'), get_pixels returns exactly the node's pixels (DeleteNode default pixels), and the inverse of each "
     "primitive restores the array bit for bit (C01 units in the segmentation configuration). BOUNDED STAND-IN: the paint-driven "
     "UserUpdateSegmentation (strokes over none/part/all of one or several nodes, new/existing/background label, with undo/redo) is explored natively "
-    "by seeded random scenarios with the array compared with 'exactly as painted' and with the pre-stroke array after undo.")
+    "by seeded random scenarios and by every rectangular stroke up to 2x3 on two fixtures (exhaustive), with the array compared with 'exactly as painted' and with the pre-stroke array after undo.")
 ASSUMPTIONS = ["a node added to tracks with a segmentation comes with pixels (documented precondition of AddNode)",
-               "UserUpdateSegmentation is not under contract (symbolic list of pixel groups + nested user actions): bounded stand-in only"]
-NOT_UNDER_CONTRACT = ["UserUpdateSegmentation.__init__ (bounded stand-in)", "RegionpropsAnnotator.compute / EdgeAnnotator.compute (bulk paths: C08/C09 bounded)"]
+               "UserUpdateSegmentation is under contract only at the level of abstract world states (contracts/paint.py); its pixel-level behaviour is the bounded stand-in"]
+NOT_UNDER_CONTRACT = ["pixel-level effect of UserUpdateSegmentation.__init__ (under contract only at the level of abstract world states, contracts/paint.py; "
+                      "which sub-actions a stroke needs and the resulting array: bounded stand-ins paint-strokes / paint-strokes-exhaustive)"]
 
 
 def units(tier):
